@@ -529,4 +529,14 @@ def main(argv=None):
 
 
 if __name__ == "__main__":
+  # the checks are written for, and registered with, the repository's own interpreter (./check); started
+  # under another python (a bare `python3 -m mc.runner`), hand over to it with the same environment
+  _py = "/venv/bin/python"
+  if os.path.exists(_py) and os.path.realpath(sys.executable) != os.path.realpath(_py) \
+     and not os.environ.get("VERIF_NO_REEXEC"):
+    os.environ.setdefault("PYTHONHASHSEED", "0")
+    os.environ.setdefault("PYTHONWARNINGS", "ignore")
+    os.environ.setdefault("PYTHONDONTWRITEBYTECODE", "1")
+    os.environ["VERIF_NO_REEXEC"] = "1"
+    os.execv(_py, [_py, "-m", "mc.runner"] + sys.argv[1:])
   sys.exit(main())
